@@ -195,6 +195,24 @@ func simGen(r *rand.Rand, tier string, n int) []*wire.Case {
 		mk("d-freeze", s)
 	}
 	{
+		s := base() // units that strike back while an attack on them is being announced: no bracket of their own, hits inside the attacker's
+		s.progs[0] = "Ap.1.1.100+Mo.6+Ms.6"
+		s.progs[1] = "Ao.2.1.100+E+Ap.1.1.50"
+		s.progs[4] = "Ap.1.1.150+Ao.1.1.20"
+		s.cycles = 4
+		mk("d-counter-in-announcement", s)
+	}
+	{
+		s := base() // a unit that only carries DISABLE_ACTION (no STAT_CTRL): no action, and its queued ultimate, inserted action and abortable follow-up are dropped
+		s.cenergy = []float64{0, 0}
+		s.progs = append(s.progs, "Ap.1.1.50")
+		s.progs[0] = "Ap.1.1.100+Ms.5+Ns.200+I.5.115.1+Ts"
+		s.progs[1] = "Ap.2.1.100+Ru1.5+Nu1.200"
+		s.ults = "1u100|1u100|1u100+2u100|1u100|1u100|1u100|1u100|1u100|1u100|1u100|1u100|1u100"
+		s.cycles = 4
+		mk("d-disable-only", s)
+	}
+	{
 		s := base() // break extension: an enemy carrying the flag loses its action (no phase-1 queue either), a character does not
 		s.progs[0] = "Ap.1.1.100+Mp.4+Ms.4"
 		s.progs[1] = "Ap.2.1.100+Ro.4"
@@ -360,16 +378,16 @@ func simGen(r *rand.Rand, tier string, n int) []*wire.Case {
 			case k == 14:
 				return fmt.Sprintf("N%s.%d", sel(), pick(r, 30, 60, 120, -50))
 			case k == 15 || k == 16:
-				return fmt.Sprintf("M%s.%d", sel(), r.Intn(5))
+				return fmt.Sprintf("M%s.%d", sel(), r.Intn(7))
 			case k == 17:
-				return fmt.Sprintf("R%s.%d", sel(), r.Intn(5))
+				return fmt.Sprintf("R%s.%d", sel(), r.Intn(7))
 			case k == 18:
 				return fmt.Sprintf("S.%d", pick(r, 1, 2, -1, -3))
 			}
 			if canAttack {
 				return fmt.Sprintf("Ap.%d.1.%d", pick(r, 1, 2), dmg())
 			}
-			return fmt.Sprintf("M%s.%d", sel(), r.Intn(5))
+			return fmt.Sprintf("M%s.%d", sel(), r.Intn(7))
 		}
 		for p := 0; p < nprogs; p++ {
 			var cs []string
@@ -378,12 +396,15 @@ func simGen(r *rand.Rand, tier string, n int) []*wire.Case {
 			}
 			s.progs = append(s.progs, strings.Join(cs, "+"))
 		}
+		flavourUlts := false
 		if r.Intn(6) == 0 && nprogs > 3 {
 			// control effects that come and go inside one queue drain: a unit freezes itself, queues a cleanse and a
 			// follow-up that must be dropped only if its source is still frozen when it is taken
 			a, c, f := 1+r.Intn(nprogs-1), 1+r.Intn(nprogs-1), 1+r.Intn(nprogs-1)
-			s.progs[c] += "+Rs.2"
-			s.progs[a] += fmt.Sprintf("+Ms.2+I.%d.%d.0+I.%d.%d.1", c, pick(r, prios...), f, pick(r, prios...))
+			m := pick(r, 2, 2, 5) // the control effect with both flags, or the bare DISABLE_ACTION one
+			s.progs[c] += fmt.Sprintf("+Rs.%d", m)
+			s.progs[a] += fmt.Sprintf("+Ms.%d+Ns.200+I.%d.%d.0+I.%d.%d.1", m, c, pick(r, prios...), f, pick(r, prios...))
+			flavourUlts = true
 		}
 		if r.Intn(2) == 0 {
 			s.start = 0
@@ -427,6 +448,14 @@ func simGen(r *rand.Rand, tier string, n int) []*wire.Case {
 			s.ults = strings.Join(calls, "|")
 		}
 		fragile := r.Intn(6) == 0 // every enemy dies to the first area attack: battles decided in the middle of a queue
+		if flavourUlts && s.ults == "" {
+			// ultimates asked for at every check, so that one is queued while its owner is under the effect
+			var calls []string
+			for k := 0; k < 12; k++ {
+				calls = append(calls, fmt.Sprintf("%du100", 1+r.Intn(nc)))
+			}
+			s.ults = strings.Join(calls, "|")
+		}
 		for e := 0; e < ne; e++ {
 			if fragile {
 				s.ehp = append(s.ehp, pick(r, 100.0, 300))
